@@ -303,7 +303,7 @@ fn wrong_literal(p: &mut Prng, ty: &Ty) -> Expr {
     }
 }
 
-pub const KINDS: [&str; 26] = [
+pub const KINDS: [&str; 27] = [
     "type",               // operand/argument/field/condition/element/return/assigned value of another type
     "arity",              // wrong number of arguments / pattern binders
     "unknown-name",       // a variable / function / type / field / variant nobody declared
@@ -330,6 +330,7 @@ pub const KINDS: [&str; 26] = [
     "drop-value",         // the value of a non-unit block is dropped (`e` → `e;`), else-less `if` used as a value
     "drop-value-after-loop", // the function's value is only returned from inside a loop that may not run
     "drop-value-short-circuit", // … or only from the right operand of `&&` / `||`, which may not be evaluated
+    "unknown-type",       // a type nobody declared, in an annotation / parameter / return type / field / variant
 ];
 
 pub struct Mutant {
@@ -919,6 +920,68 @@ pub fn mutate(prng: &mut Prng, prog: &Prog, kind: &'static str) -> Option<Mutant
                     b.stmts.push(Stmt::Do(Expr::UnitLit));
                 },
             )
+        }
+        "unknown-type" => {
+            let mut p = prog.clone();
+            let unknown = Ty::Named(777);
+            match prng.below(4) {
+                0 => {
+                    // a `let` annotation
+                    let mut seed = prng.clone();
+                    prng.next();
+                    return pick_block(
+                        prng,
+                        prog,
+                        &|b, _, _| b.stmts.iter().any(|s| matches!(s, Stmt::Let(_, Some(_), _))),
+                        &mut |b, _, _| {
+                            let idx: Vec<usize> = (0..b.stmts.len()).filter(|i| matches!(b.stmts[*i], Stmt::Let(_, Some(_), _))).collect();
+                            let i = *seed.pick(&idx);
+                            if let Stmt::Let(_, ann, _) = &mut b.stmts[i] {
+                                *ann = Some(if seed.chance(1, 2) { Ty::Named(777) } else { Ty::Opt(Box::new(Ty::Named(777))) });
+                            }
+                        },
+                    )
+                    .filter(|q| q != prog)
+                    .map(|prog| Mutant { prog, kind, detail: "unknown type in a let annotation".into() });
+                }
+                1 => {
+                    let fns: Vec<usize> = (0..p.decls.len()).filter(|i| matches!(&p.decls[*i], Decl::Fn { params, .. } if !params.is_empty())).collect();
+                    if fns.is_empty() {
+                        return None;
+                    }
+                    let i = *prng.pick(&fns);
+                    if let Decl::Fn { params, .. } = &mut p.decls[i] {
+                        let k = prng.below(params.len() as u64) as usize;
+                        params[k].1 = unknown;
+                    }
+                    detail = "unknown parameter type".into();
+                }
+                2 => {
+                    let fns: Vec<usize> = (0..p.decls.len()).filter(|i| matches!(&p.decls[*i], Decl::Fn { .. })).collect();
+                    if fns.is_empty() {
+                        return None;
+                    }
+                    let i = *prng.pick(&fns);
+                    if let Decl::Fn { ret, .. } = &mut p.decls[i] {
+                        *ret = Ty::List(Box::new(unknown));
+                    }
+                    detail = "unknown type in a return type".into();
+                }
+                _ => {
+                    let tys: Vec<usize> = (0..p.decls.len()).filter(|i| matches!(&p.decls[*i], Decl::Rec { .. } | Decl::Enum { .. })).collect();
+                    if tys.is_empty() {
+                        return None;
+                    }
+                    let i = *prng.pick(&tys);
+                    match &mut p.decls[i] {
+                        Decl::Rec { fields, .. } => fields.push((9500, unknown)),
+                        Decl::Enum { variants, .. } => variants.push((9500, vec![unknown])),
+                        _ => {}
+                    }
+                    detail = "unknown type in a type declaration".into();
+                }
+            }
+            Some(p)
         }
         "drop-value-short-circuit" => {
             let mut seed = prng.clone();
